@@ -580,6 +580,13 @@ func (m *Machine) intrinsic(s *State, f *Frame, x *ssa.Call, name string, callee
 		m.stubs["protobuf Marshal/Unmarshal as box"]++
 		if sl.obj != 0 {
 			if bx, ok := s.heap[sl.obj].v.(BoxV); ok && bx.typ == msg.typ.String() {
+				if pt, isP := msg.typ.(*types.Pointer); isP && m.pbInvalidUTF8(s, pt.Elem(), bx.v, 0) {
+					// protobuf-go validates proto3 string fields (vtprotobuf, which produced these bytes, does not)
+					m.nerr++
+					m.stubs["proto.Unmarshal: string field with invalid UTF-8 refused"]++
+					f.env[x] = IfaceV{typ: x.Type(), v: &ErrV{id: m.nerr, msg: "proto: string field contains invalid UTF-8"}}
+					return nil, true
+				}
 				s.store(msg.v.(Ptr), bx.v)
 				f.env[x] = IfaceV{}
 				return nil, true
@@ -588,8 +595,18 @@ func (m *Machine) intrinsic(s *State, f *Frame, x *ssa.Call, name string, callee
 		m.nerr++
 		f.env[x] = IfaceV{typ: x.Type(), v: &ErrV{id: m.nerr, msg: "proto: cannot parse"}}
 		return nil, true
-	case name == "google.golang.org/protobuf/proto.Marshal":
+	case name == "google.golang.org/protobuf/proto.Marshal" || name == "(google.golang.org/protobuf/proto.MarshalOptions).Marshal":
+		if name != "google.golang.org/protobuf/proto.Marshal" {
+			args = args[1:] // receiver: the options
+		}
 		msg := args[0].(IfaceV)
+		if pt, isP := msg.typ.(*types.Pointer); isP && m.pbInvalidUTF8(s, pt.Elem(), s.load(msg.v.(Ptr)), 0) {
+			m.nerr++
+			m.stubs["proto.Marshal: string field with invalid UTF-8 refused"]++
+			errT := x.Type().(*types.Tuple).At(1).Type()
+			f.env[x] = TupleV{[]Value{SliceV{}, IfaceV{typ: errT, v: &ErrV{id: m.nerr, msg: "proto: string field contains invalid UTF-8"}}}}
+			return nil, true
+		}
 		id := s.alloc(BoxV{v: s.load(msg.v.(Ptr)), typ: msg.typ.String()})
 		m.stubs["protobuf Marshal/Unmarshal as box"]++
 		f.env[x] = TupleV{[]Value{SliceV{obj: id, len: 1, cap: 1}, IfaceV{}}}
@@ -1145,6 +1162,19 @@ func (m *Machine) timeIntrinsic(s *State, f *Frame, x *ssa.Call, name string, ar
 	case "(*time.Timer).Reset", "(*time.Ticker).Reset":
 		if x != nil && name == "(*time.Timer).Reset" {
 			f.env[x] = Sc{c.Bool(true)}
+		}
+		if name == "(*time.Timer).Reset" && !m.timersOff {
+			// re-armed: like a new timer it may fire at any moment from now on (exactly one pending value)
+			if tp, ok := args[0].(Ptr); ok && tp.obj != 0 {
+				if tk, ok := s.load(tp).(StructV); ok && len(tk.f) > 0 {
+					if cp, ok := tk.f[0].(Ptr); ok && cp.obj != 0 {
+						if ch, ok := s.load(cp).(ChanV); ok && ch.timer && m.timeT != nil {
+							ch.buf = []Value{m.zero(m.timeT)}
+							s.store(cp, ch)
+						}
+					}
+				}
+			}
 		}
 		return nil, true
 	case "(*time.Ticker).Stop", "(*time.Timer).Stop":
